@@ -42,6 +42,13 @@ def run(ctx):
     N[0] = ctx.budget(6, 30)
     ctx.rule = ("generated programs x seeded schedules (permutation of every batch of sibling 'e' messages); a case = one "
                 "program with its schedule seeds; non-trivial = at least one query instance and more than one world")
-    return cfgprop.run(ctx, MODULE, THEOREMS, variants, nq=50, nt=700, level="other", gen_kwargs={"disjunction": True},
-                       explanation="Schedules are explored (seeded), not proved; every schedule is compared with the Lean "
-                                   "specification. The engine's internal algorithm is not modelled.")
+    # ground programs without recursion: the engine is MODELLED (exact correspondence of the ground program under the
+    # recorded schedule) and schedule independence is a theorem (C03_ground_schedule_independent)
+    import ground_util
+    gerr = ground_util.guarded(ctx, "sched", 250, 6000)
+    rc = cfgprop.run(ctx, MODULE, THEOREMS, variants, nq=50, nt=700, level="other", gen_kwargs={"disjunction": True},
+                     explanation="Schedules are explored (seeded), not proved, on general programs; every schedule is compared "
+                                 "with the Lean specification. On ground programs without recursion the engine is modelled "
+                                 "(lean/ProbLogModel/GroundAcyclic.lean, exact correspondence under the recorded schedule) and "
+                                 "schedule independence is proved (ProbLogProofs.C01Ground).")
+    return ground_util.after(rc, gerr)
